@@ -118,6 +118,8 @@ impl Vm {
       waiter.set_waiter(new_fiber);
 
       // put the fiber in the queue
+      #[cfg(feature = "verif")]
+      laythe_core::verif::probe(laythe_core::verif::probes::LAUNCH);
       self.fiber_queue.push_back(new_fiber);
       self.current_fun = current_fun;
       self.load_ip();
@@ -909,6 +911,8 @@ impl Vm {
 
     let result = match self.import_module(import) {
       ImportResult::Loaded(module) => {
+        #[cfg(feature = "verif")]
+        laythe_core::verif::probe(laythe_core::verif::probes::IMPORT_LOADED);
         self.module_cache.insert(resolved, module);
         let module_instance = val!(module.module_instance(&GcHooks::new(self)));
 
@@ -916,6 +920,8 @@ impl Vm {
         ExecutionSignal::Ok
       },
       ImportResult::Compiled(fun) => {
+        #[cfg(feature = "verif")]
+        laythe_core::verif::probe(laythe_core::verif::probes::IMPORT_COMPILED);
         self.update_ip(-3);
         self.fiber.sleep();
 
@@ -981,6 +987,8 @@ impl Vm {
 
     let result = match self.import_module(import) {
       ImportResult::Loaded(module) => {
+        #[cfg(feature = "verif")]
+        laythe_core::verif::probe(laythe_core::verif::probes::IMPORT_LOADED);
         self.module_cache.insert(resolved, module);
 
         match module.get_exported_symbol_by_name(symbol_name) {
@@ -999,6 +1007,8 @@ impl Vm {
         }
       },
       ImportResult::Compiled(fun) => {
+        #[cfg(feature = "verif")]
+        laythe_core::verif::probe(laythe_core::verif::probes::IMPORT_COMPILED);
         self.update_ip(-5);
         self.fiber.sleep();
 
@@ -1534,6 +1544,8 @@ impl Vm {
   fn discard_roots(&mut self, count: usize) {
     let current = self.gc.borrow().temp_roots();
     if current > count {
+      #[cfg(feature = "verif")]
+      laythe_core::verif::probe(laythe_core::verif::probes::NATIVE_ERROR_ROOTS_DISCARDED);
       self.pop_roots(current - count);
     }
   }
